@@ -24,7 +24,7 @@ NoVal == "<none>"
 VARIABLES
     on,
     now,     \* <<ms, sub>>
-    frule,   \* resource -> flow throttling rule [id, res, thr, I, maxq]   (at most one per resource)
+    frule,   \* resource -> sequence of its flow throttling rules [id, res, thr, I, maxq] in consultation order
     flast,   \* rule id -> [fresh, last]
     hrule,   \* resource -> hotspot throttling rule [id, res, idx, key, thr, dur, maxq, spec]
     hlast,   \* rule id -> (value -> last scheduled ms)
@@ -112,14 +112,23 @@ SameH(a, b) == /\ a.res = b.res /\ a.idx = b.idx /\ a.key = b.key /\ a.thr = b.t
                /\ a.maxq = b.maxq /\ a.spec = b.spec /\ a.cap = b.cap
 Range(f) == {f[x] : x \in DOMAIN f}
 
+Perms(S) == {p \in [1..Cardinality(S) -> S] : \A a \in S : \E i \in 1..Cardinality(S) : p[i] = a}
+FlowRules == UNION {SeqToSet(frule[res]) : res \in DOMAIN frule}
+
+\* several throttling rules of one resource are consulted one after the other, in an order fixed at load
+\* time (unspecified: any permutation)
 LoadFlow(ev) ==
     /\ ev.e = "load" /\ ev.fam = "flow" /\ ev.op \in {"all", "res"} /\ on /\ Leq(now, Tm(ev)) /\ now' = Tm(ev)
     /\ LET scope(r) == ev.op = "all" \/ r.res = ev.res
            rs == {r \in SeqToSet(ev.rules) : r.res # "" /\ r.thr[1] >= 0 /\ scope(r)}
-                 \cup {o \in Range(frule) : ~scope(o)}
-           oldOf(r) == {o \in Range(frule) : SameF(o, r)}
+                 \cup {o \in FlowRules : ~scope(o)}
+           oldOf(r) == {o \in FlowRules : SameF(o, r)}
+           ress == {r.res : r \in rs}
        IN
-       /\ frule' = [res \in {r.res : r \in rs} |-> CHOOSE r \in rs : r.res = res]
+       /\ frule' \in [ress -> UNION {Perms({r \in rs : r.res = res}) : res \in ress}]
+       /\ \A res \in ress : SeqToSet(frule'[res]) = {r \in rs : r.res = res} /\ Len(frule'[res]) = Cardinality({r \in rs : r.res = res})
+       \* resources the call does not concern keep their order
+       /\ \A res \in ress : (\A r \in {x \in rs : x.res = res} : ~scope(r)) => frule'[res] = frule[res]
        /\ flast' = [id \in {r.id : r \in rs} |->
                       LET r == CHOOSE x \in rs : x.id = id IN
                       IF oldOf(r) # {} THEN flast[(CHOOSE o \in oldOf(r) : TRUE).id]
@@ -148,10 +157,20 @@ LoadHot(ev, inh) ==
 \* fo / ho: the outcomes taken for the flow and for the hotspot stage ("none" stage = pass, no wait)
 NoStage == [res |-> "pass", wait |-> Zero]
 
+\* the rules of the resource one after the other: each sees the instant the previous one released the caller
+\* at; a rejection ends the consultation (what was slept before stays slept)
+RECURSIVE FWalk(_, _, _, _, _, _)
+FWalk(rs, i, n, t, acc, sts) ==
+    IF i > Len(rs) THEN {[res |-> "pass", wait |-> acc, sts |-> sts]}
+    ELSE UNION { IF o.res = "block"
+                 THEN {[res |-> "block", wait |-> acc, sts |-> (rs[i].id :> o.st) @@ sts]}
+                 ELSE FWalk(rs, i + 1, n, Add(t, o.wait), Add(acc, o.wait), (rs[i].id :> o.st) @@ sts)
+               : o \in FlowOutcomes(rs[i], n, t, flast[rs[i].id]) }
+
 FlowStage(ev) ==
     IF ev.res \in DOMAIN frule
-    THEN LET r == frule[ev.res] IN FlowOutcomes(r, ev.n, Tm(ev), flast[r.id])
-    ELSE {[res |-> "pass", wait |-> Zero, st |-> <<>>]}
+    THEN FWalk(frule[ev.res], 1, ev.n, Tm(ev), Zero, <<>>)
+    ELSE {[res |-> "pass", wait |-> Zero, sts |-> <<>>]}
 
 HotStage(ev, t1) ==
     IF ev.res \in DOMAIN hrule
@@ -168,7 +187,7 @@ Enter(ev, fo, ho) ==
        /\ ho \in HotStage(ev, t1)
        /\ now' = Add(t1, Ms(ho.wait))
        /\ slept' = Add(fo.wait, Ms(ho.wait))
-    /\ flast' = IF ev.res \in DOMAIN frule THEN [flast EXCEPT ![frule[ev.res].id] = fo.st] ELSE flast
+    /\ flast' = [id \in DOMAIN flast |-> IF id \in DOMAIN fo.sts THEN fo.sts[id] ELSE flast[id]]
     /\ hlast' = IF ev.res \in DOMAIN hrule THEN [hlast EXCEPT ![hrule[ev.res].id] = ho.hl] ELSE hlast
     /\ UNCHANGED <<on, frule, hrule>>
 
@@ -186,7 +205,7 @@ ThrottleInit ==
 (* ---- invariants ---- *)
 \* the schedule never runs further ahead of the clock than the maximum queueing time
 BoundedQueue ==
-    /\ \A res \in DOMAIN frule : LET r == frule[res] IN
+    /\ \A r \in FlowRules :
           flast[r.id].fresh \/ Leq(flast[r.id].last, Add(now, Ms(r.maxq)))
     /\ \A res \in DOMAIN hrule : LET r == hrule[res] IN
           \A v \in DOMAIN hlast[r.id] : hlast[r.id][v] <= now[1] + r.maxq
